@@ -123,7 +123,8 @@ def units(w):
                     bounded="host containers of <= 3 elements, all pairs of iteration orders", replay=replay_seeds, config={"repr_mode": "inline"})
 
     gcv = w.func("nodes.py::getCollectionValue")
-    for n in (0, 1, 2, 3):
+    for n in (0, 1, 2, 3, 4):
+        first_new = len(U)
         U.append(rel_unit("nodes.py::getCollectionValue", "set", lambda it, n=n: [mkset(it, n), None], lambda it, a: it.call(gcv, a), n))
         for what in ("keys", "values", "entries"):
             U.append(rel_unit("nodes.py::getCollectionValue", f"map {what}", lambda it, n=n, what=what: [mkmap(it, n), what], lambda it, a: it.call(gcv, a), n))
@@ -203,6 +204,16 @@ def units(w):
         for cname in ("FuncAdd", "FuncSub"):
             U.append(rel_unit(f"functions.py::{cname}.execute", "set op set", lambda it, n=n, cname=cname: b_arith(it, cname, n),
                               lambda it, a, cname=cname: it.call(w.func(f"functions.py::{cname}.execute"), a), n))
+
+        if n == 4:
+            keep = []
+            for u in U[first_new:]:
+                if "__repr__" in u.name or "__hash__" in u.name:
+                    continue          # rendering four symbolic element texts: string solving beyond any budget
+                u.thorough_only = True
+                u.bounded = "host containers of 4 elements, all pairs of iteration orders (thorough tier)"
+                keep.append(u)
+            U[first_new:] = keep
 
     # ------------------------------------------------------------------ the value order is a strict total order across kinds
     from .c12_order import units as order_units
